@@ -8,18 +8,19 @@ from ..engine.cfg import span_str
 from ..engine import panics
 from .c12 import mentions
 
-CONFIGS_QUICK = ["D"]
-CONFIGS_THOROUGH = ["D", "A"]
+CONFIGS_QUICK = ["S"]
+CONFIGS_THOROUGH = ["S", "D", "A"]
 
 EXPLANATION = (
-    "Decided (static, MIR of the macro-expanded parsers in tiny-cli/tests/derive_test.rs - the family the property names: required/optional/repeated options, aliases, booleans, positionals, nested and optional subcommands): "
+    "Decided (static, MIR of the macro-expanded parsers in tiny-cli/tests/derive_test.rs plus the /verif shape corpus sa/shapes/verif_shapes.rs, which is compiled as a further test target of a scratch copy of the tree - "
+    "the family the property names: required/optional/repeated options, aliases (including the help letter declared by a field), booleans, positionals, documented/undocumented tags in every order, nested and optional subcommands): "
     "C20.1 the generated arg_parse / subcommand_parse functions contain no potential-panic site at all (no bounds/overflow assertion, no unwrap/expect/index/panic call) and reach no process exit; "
     "the error types' own code (ArgParseError, ArgParseCauseBuffer) has every potential-panic site discharged by the buffer invariant len <= 128 (reviewed table); "
     "C20.2 the 128-byte cause buffer cannot overflow: the copy in write_str is dominated by len(s) <= CAP - self.len, both constructors return the fixed overflow error on failure, only write_str (and constant initialisers <= CAP) ever set the length, "
     "and the overflow message's declared length does not exceed its text; C20.3 every failure is a value: the parsers call neither exit nor panic, and -h/--help arms return an error value built from the help printer; "
     "C20.4 sibling agreement between parser and help text: the option literals the generated decision tree accepts are exactly the option names its help printer lists plus -h/--help, and subcommand parsers accept exactly the command names the help text lists (including names passed to format_args! as arguments, read from the promoted constants' memory); C20.6 tokens are consumed only by the declared grammar (option-literal match, value conversion, error message: a closed call vocabulary) and a token unknown to the subcommand parser (Ok(None)) leads to an error; C20.5 every argument is consumed or rejected: a derived ArgParse parser builds its Ok result only on a path on which args.next() returned None. "
     "NOT decided: round-tripping for every value assignment and option order, acceptance of exactly the declared grammar beyond the literal sets, user FromStr impls (outside; their errors are routed into the cause buffer).")
-ASSUMPTIONS = ["the family of derived types = the types in tiny-cli/tests/derive_test.rs", "invariant of ArgParseCauseBuffer: len <= 128 (established by C20.2)"]
+ASSUMPTIONS = ["the family of derived types = the types in tiny-cli/tests/derive_test.rs and sa/shapes/verif_shapes.rs", "invariant of ArgParseCauseBuffer: len <= 128 (established by C20.2)"]
 
 CLI = "tiny_std::unix::cli::"
 REVIEWED = {
@@ -30,9 +31,15 @@ REVIEWED = {
 
 
 def run(ck, progs, tier):
-    prog = progs["D"]
-    ck.set_config(prog)
-    run_d(ck, prog)
+    # S = the tree's own derive tests plus the /verif shape corpus (sa/shapes), D = the tree's own tests alone
+    for cfgname in ("S", "D"):
+        if cfgname not in progs:
+            continue
+        prog = progs[cfgname]
+        ck.set_config(prog)
+        run_d(ck, prog, "derive_test", 23, 60)
+        if cfgname == "S":
+            run_d(ck, prog, "verif_shapes", 10, 45, cli_types=False)
     if "A" in progs:
         ck.set_config(progs["A"])
         check_cli_types(ck, progs["A"])
@@ -125,9 +132,9 @@ def help_text(prog, printer_ty):
     return "\n".join(texts)
 
 
-def run_d(ck, prog):
-    parsers = [(p, f) for p, f in sorted(prog.fns.items()) if f["crate"] == "derive_test" and (f.get("impl_trait") or "").endswith(("cli::ArgParse", "cli::SubcommandParse")) and p.endswith(("::arg_parse", "::subcommand_parse"))]
-    ck.floor("C20.1", "derived parsers analysed", len(parsers), 23)
+def run_d(ck, prog, crate, n_parsers, n_literals, cli_types=True):
+    parsers = [(p, f) for p, f in sorted(prog.fns.items()) if f["crate"] == crate and (f.get("impl_trait") or "").endswith(("cli::ArgParse", "cli::SubcommandParse")) and p.endswith(("::arg_parse", "::subcommand_parse"))]
+    ck.floor("C20.1", f"derived parsers analysed ({crate})", len(parsers), n_parsers)
     cg = prog.callgraph()
     n_lit = 0
     for p, fn in parsers:
@@ -144,7 +151,7 @@ def run_d(ck, prog):
         # C20.3: no exit / panic reachable (through local code)
         # generated code only (the cli error types are covered by their own inventory below): the parser and the generated
         # functions it calls must not call exit / panic / unwrap / expect
-        gen = {q for q in cg.reach([p]) if q in prog.fns and prog.fns[q]["crate"] == "derive_test"}
+        gen = {q for q in cg.reach([p]) if q in prog.fns and prog.fns[q]["crate"] == crate}
         badc = sorted({c for q in gen for c in cg.callees.get(q, ()) if c.startswith(("rusl::process::exit", "tiny_std::process::exit", "core::panicking::")) or c.endswith(("::unwrap", "::expect"))})
         ck.ob("C20.3", f"{short}|{p.split('::')[-1]}|errors-are-values", not badc, fn=p, detail=f"generated parser code calls {badc}: failures must be returned as ArgParseError values")
         # C20.5: every argument is consumed or rejected: an ArgParse parser reports success only after args.next() returned None
@@ -219,14 +226,35 @@ def run_d(ck, prog):
         # sibling agreement with the help text
         ty_path = self_ty
         text = ""
-        cands = [q for q in prog.fns if q.startswith("<derive_test::__" + short + "HelpPrinterZst as core::fmt::Display>::fmt")]
+        cands = [q for q in prog.fns if q.startswith("<" + crate + "::__" + short + "HelpPrinterZst as core::fmt::Display>::fmt")]
         if cands:
-            text = help_text(prog, "derive_test::__" + short + "HelpPrinterZst")
+            text = help_text(prog, crate + "::__" + short + "HelpPrinterZst")
         if text and p.endswith("::arg_parse"):
             listed = set(re.findall(r"(?<![\w-])(--[A-Za-z0-9][A-Za-z0-9_-]*|-[A-Za-z])(?![\w-])", text.split("Options:")[-1] if "Options:" in text else ""))
             accepted = {s for s in strs if s.startswith("-")} - {"-h", "--help"}
             ck.ob("C20.4", f"{short}|parser-accepts-exactly-the-listed-options", accepted == listed - {"-h", "--help"}, fn=p,
                   detail=f"options accepted by the generated decision tree {sorted(accepted)} differ from the options its help text lists {sorted(listed)}")
+        if text and p.endswith("::arg_parse"):
+            # every alias the help text gives one option leads to the same arm, and a declared option's arm is not the help arm: an option
+            # the grammar declares (even `-h`, when a field claims it) must parse as that option
+            help_arm = lits.get(b"--help\0")
+            opt_section = text.split("Options:")[-1] if "Options:" in text else ""
+            for line in opt_section.split("\n"):
+                grp = re.findall(r"(?<![\w-])(--[A-Za-z0-9][A-Za-z0-9_-]*|-[A-Za-z])(?![\w-])", line) if re.match(r"^\s{2,6}-", line) else []
+                if not grp or set(grp) <= {"-h", "--help"}:
+                    continue
+                arms = {g: lits.get(g.encode() + b"\0") for g in grp}
+                ck.ob("C20.4", f"{short}|declared-option-reaches-its-own-arm|{','.join(grp)}", len(set(arms.values())) == 1 and None not in arms.values() and help_arm not in arms.values(), fn=p,
+                      detail=f"the help text declares {grp} as one option, the decision tree sends them to arms {arms} (help arm: bb{help_arm}): a declared alias that lands in the help arm, or in another option's arm, cannot be parsed back")
+        if p.endswith("::subcommand_parse"):
+            # the declared grammar of a Subcommand enum is its tags: each tag is accepted under its kebab-case name, and nothing else is
+            adt = prog.adts.get(self_ty)
+            if ck.anchor("C20.4", f"{short}|enum definition", adt):
+                def kebab(n):
+                    return "".join(("-" if i and ch.isupper() else "") + ch.lower() for i, ch in enumerate(n))
+                tags = {kebab(v["name"]) for v in adt["variants"]}
+                ck.ob("C20.4", f"{short}|every-tag-is-a-command", tags == set(strs), fn=p,
+                      detail=f"the enum declares the tags {sorted(tags)}, the generated parser accepts {sorted(strs)}: a tag without an arm can never be parsed (and is missing from the help text too, so parser and help still agree with each other)")
         if text and p.endswith("::subcommand_parse"):
             listed = set(re.findall(r"^\s{2}([a-z][a-z0-9_-]*)(?=\s|$)", text.split("Commands:")[-1], re.M))
             # names handed to format_args! as `&&str` arguments (commands with a doc line) arrive as bare strings
@@ -234,8 +262,9 @@ def run_d(ck, prog):
             accepted = set(strs)
             ck.ob("C20.4", f"{short}|parser-accepts-exactly-the-listed-commands", listed == accepted and bool(accepted), fn=p,
                   detail=f"commands accepted by the generated decision tree {sorted(accepted)} differ from the commands its help text lists {sorted(listed)}")
-    ck.floor("C20.4", "option/command literals", n_lit, 60)
-    check_cli_types(ck, prog)
+    ck.floor("C20.4", f"option/command literals ({crate})", n_lit, n_literals)
+    if cli_types:
+        check_cli_types(ck, prog)
 
 
 def check_cli_types(ck, prog):
